@@ -339,6 +339,26 @@ def equivalent(a, b):
     return True
 
 
+def equivalent_conj(a, parts):
+    """Like equivalent(a, AND(parts...)) without building a deeply nested conjunction."""
+    if not wellformed_ast(a) or not all(wellformed_ast(p) for p in parts):
+        return "malformed-ast"
+    table = {}
+    a2 = atomize(a, table)
+    p2 = [atomize(p, table) for p in parts]
+    vs = set(ast_names(a2))
+    for p in p2:
+        vs |= ast_names(p)
+    vs = sorted(vs)
+    if len(vs) > 16:
+        return "too-many-variables"
+    for vals in itertools.product((False, True), repeat=len(vs)):
+        env = dict(zip(vs, vals))
+        if ev(a2, env) != all(ev(p, env) for p in p2):
+            return False
+    return True
+
+
 # ----------------------------------------------------------------------------- snapshot (purity)
 def snapshot_or_none(m):
     """snapshot(), or None when the tree is too deep for the recursive walker."""
